@@ -827,9 +827,6 @@ class Run:
         p = self.proc
         if p is None:         # the constructor raised: there is no process (project_model gives the same record)
             return dict(UNBORN)
-        # a process killed without a message: the empty status text and the empty KilledError text stand for "no message"
-        none_msg = p.state == ps.ProcessState.KILLED and p.killed_msg() is None
-        nomsg = (lambda v: 'NOMSG' if none_msg and v == '' else v)
         f = p.future()
         if f.cancelled():
             fut = ['cancelled', '-']
@@ -837,7 +834,7 @@ class Run:
             fut = ['pending', '-']
         elif f.exception() is not None:
             e = f.exception()
-            fut = ['killed', nomsg(str(e))] if isinstance(e, plumpy.KilledError) else ['exc', exc_tag(e)]
+            fut = ['killed', str(e)] if isinstance(e, plumpy.KilledError) else ['exc', exc_tag(e)]
         else:
             fut = ['result', flat_outputs(f.result())]
         if self.task.done():
@@ -847,7 +844,7 @@ class Run:
         else:
             task = 'live'
         return {
-            'state': LABEL[p.state], 'paused': p.paused, 'killing': p.is_killing, 'status': nomsg(mval(p.status)),
+            'state': LABEL[p.state], 'paused': p.paused, 'killing': p.is_killing, 'status': mval(p.status),
             'fut': fut, 'closed': is_closed(p), 'task': task, 'outputs': flat_outputs(p.outputs),
             'acc': accessors(p), 'acts': [act_status(a) for a in _ACTS],
             'rpcs': [self.reply_status(f) for f in self.replies],
